@@ -358,6 +358,12 @@ def classify_component(facts, body, op):
     if mapped:
         calls = {c for c in calls if c not in mapped} | {"wal::config::sanitize_namespace"}
     if calls and all(re.search(r"config::sanitize_namespace$", c) for c in calls):
+        # every way the value is produced goes through the sanitizer: nothing of the caller's (an argument, a capture, a
+        # field) may reach the operand around it (`if looks_plain(key) { key } else { sanitize_namespace(key) }`)
+        direct, _, _ = origins(body, op, passthrough_extra=[r"^std::fmt::format$", r"fmt::Arguments.*::new", r"Argument.*::new_display$"], stop_calls=[r"config::sanitize_namespace$"])
+        raw = sorted(str(o.what) for o in direct if o.kind in ("arg", "upvar", "static"))
+        if raw:
+            return "other:the key itself (%s) on a path around sanitize_namespace" % ",".join(raw), src
         return "sanitize", src
     if calls and all(re.search(r"config::now_millis_str$", c) for c in calls):
         return "millis", src
